@@ -256,6 +256,13 @@ def r4_profile(ctx):
         tag = "proj" if lookup(p.decided, ("cmp", "is", ("param", "projection"), NONE)) is False else "noproj"
         pcs = [e.data[0] for e in p.events if e.kind == "call" and callee(e.data[0]) == "verde.coordinates.profile_coordinates"]
         pr = predict_terms(p)
+        other_pcs = []
+        if len(pcs) > 1 and len(pr) == 1 and pr[0][2]:
+            # several profiles are built: the one the prediction is evaluated on is THE profile, the others are judged where they are used
+            fed = [c for c in pcs if any(x == c for x in walk(pr[0][2][0]) if isinstance(x, tuple))]
+            if len(fed) == 1:
+                other_pcs = [c for c in pcs if c != fed[0]]
+                pcs = fed
         if len(pcs) != 1 or len(pr) != 1:
             ctx.add("R4", "%s|shape|%s" % (qn, tag), "UNDECIDED", "expected one profile_coordinates and one predict call", fn=qn)
             continue
@@ -315,8 +322,11 @@ def r4_profile(ctx):
             good = [v for v in coordcols if v[0] == "sub" and canon(v[1]) == canon(want)]
             raw = [v for v in coordcols if v[0] == "sub" and canon(v[1]) == canon(cart)]
             fwd = [v for v in coordcols if "PROJ" in labels(v) and "INV" not in labels(v) and not any(x[0] == "call" and x[1] == ("attr", Q.SELF, "predict") for x in walk(v))]
-            ctx.check("R4", "%s|coordinate-columns-inverse-projected" % qn, True if len(good) >= 2 else (False if raw or fwd else None),
-                      "output coordinates are mapped back with projection(..., inverse=True)", bad="output coordinates are left in projected units", fn=qn)
+            foreign = [v for v in coordcols if any(x == c for c in other_pcs for x in walk(v) if isinstance(x, tuple)) and not any(x == pc for x in walk(v) if isinstance(x, tuple))]
+            ctx.check("R4", "%s|coordinate-columns-inverse-projected" % qn, True if len(good) >= 2 else (False if raw or fwd or foreign else None),
+                      "output coordinates are mapped back with projection(..., inverse=True)",
+                      bad="output coordinates come from a second profile_coordinates call, not from the (inverse-projected) points the data were predicted at: a straight segment between the "
+                          "unprojected end points is not the image of the Cartesian profile" if foreign and not (raw or fwd) else "output coordinates are left in projected units", fn=qn)
         else:
             good = [v for v in coordcols if v[0] == "sub" and canon(v[1]) == canon(cart)]
             ctx.check("R4", "%s|coordinate-columns-raw" % qn, True if len(good) >= 2 else None, "output coordinates are the profile coordinates", fn=qn)
